@@ -514,6 +514,16 @@ def build_Elastic(case, mesh):
     mt = MatrixType.rigi
     U = u.reshape(Nn, dim)
     eps, sig, W_e = _elastic_like_tables(table, mesh, groups, U, dim, lambda g, e: law(e), th, mt)
+    if case["variant"] == "iso_pe":
+        # plane strain: the stress tensor has the out-of-plane component sigma_zz = nu (sigma_xx + sigma_yy); the equivalent stress is the von Mises
+        # norm of THAT tensor (property: "equivalent stress as the von Mises norm of the stress at each integration point, averaged per element")
+        full = []
+        for sg in sig:
+            t = np.array(sg, dtype=float)
+            t[..., 2, 2] = 0.28 * (t[..., 0, 0] + t[..., 1, 1])
+            full.append(t)
+        vm = np.concatenate([vonmises(t).mean(axis=1) for t in full])
+        table["Svm"] = Spec("elem", vm, float(np.max(np.abs(vm))))
     K = simu.Get_K_C_M_F()[0]
     W = 0.5 * float(u @ (K @ u))
     extra = []
